@@ -151,7 +151,7 @@ macro "inv2_close" hi:ident : tactic =>
   `(tactic| (constructor <;> first
       | exact ($hi).qT | exact ($hi).qQueue | exact ($hi).qWaitR
       | (intros; have := ($hi).qT; have := ($hi).qQueue; have := ($hi).qWaitR
-         simp only [upd] at *; grind)))
+         simp only [upd] at * <;> grind)))
 
 theorem inv2_init : Inv2 c St.init := by
   constructor <;> simp [St.init]
@@ -206,6 +206,13 @@ theorem step_inv2 (hwf : WF c) {s s' : St} (hi : Inv2 c s) (h : Step c s s') : I
         have hqt := hi.qT i q hq
         split at h <;> (cases h; inv2_close hi)
       · cases h; apply taskDone_inv2; inv2_close hi
+    · cases h
+  | queuerAbort i =>
+    simp only [fire] at h
+    split at h
+    · split at h
+      · cases h; inv2_close hi
+      · cases h
     · cases h
   | take m => simp only [fire] at h; split at h <;> first | (cases h; inv2_close hi) | cases h
   | drop m =>
@@ -381,6 +388,25 @@ theorem step_mu {s s' : St} (hi : Inv c s) (h2 : Inv2 c s) (a : Action) (h : fir
         simp only [mu] at ht ⊢
         simp only [taskDone] at ht ⊢
         omega
+    · cases h
+  | queuerAbort i =>
+    simp only [fire] at h
+    split at h
+    · rename_i q hq
+      split at h
+      · rename_i d r hph
+        cases h
+        right
+        have hlt := hi.qFresh i q hq
+        have e := muQ_upd c s.qs s.nextQ i hlt (some { q with ph := .done })
+        rw [hq] at e
+        have e1 : qm c (some q) = (d :: r).length + (c.deps q.t).length + 4 := by simp [qm, hph]
+        have e2 : qm c (some { q with ph := QPh.done }) = 1 := rfl
+        have e3 : b01 true ≤ b01 s.stopped := by cases s.stopped <;> decide
+        simp only [List.length_cons] at e1
+        simp only [mu]
+        omega
+      · cases h
     · cases h
   | take m =>
     simp only [fire] at h
